@@ -47,6 +47,14 @@ def run(ck):
     # happens to end behind a payload that ends in 0x0A (rule C02-F)
     import parsefields
     parsefields.check(ck, lib, sk, "C08-F", ("terminated",))
+    # the handler receives the payload itself (no trimming, no re-encoding): the conversion table of C03
+    import c03
+    with ck.under("C03-", "C08-C03"):
+        c03.rule_V(ck, lib)
+    # a block or string that is not complete yet is Incomplete - never cut short at a newline that has arrived (C12-I)
+    import c12
+    with ck.under("C12-", "C08-C12"):
+        c12.rule_I(ck, lib, sk)
 
 
 def value_ctor(sk, x):
